@@ -11,7 +11,7 @@ use hpke::generic_array::{
 use hpke::rand_core::{CryptoRng, RngCore};
 
 pub const AAD_CAP: usize = 8;
-pub const MSG_CAP: usize = 40;
+pub const MSG_CAP: usize = 18;
 
 // -------------------------------------------------------------------------------------------
 // SpyAead: "any AEAD whatsoever".  Records exactly what hpke hands to the primitive; the verdict
@@ -139,9 +139,14 @@ impl<K: aead::generic_array::ArrayLength<u8>> AeadInPlace for SpyImpl<K> {
         let s = spy();
         s.encs += 1;
         s.last = record(&self.key, self.key_len, nonce, aad, buffer, &[0u8; 16]);
-        // visible, invertible change of the buffer
-        for b in buffer.iter_mut() {
-            *b ^= 0x5c;
+        // visible, invertible change of the buffer (constant trip count, length test inside)
+        let blen = buffer.len();
+        let mut i = 0;
+        while i < MSG_CAP {
+            if i < blen {
+                buffer[i] ^= 0x5c;
+            }
+            i += 1;
         }
         if s.enc_ok {
             Ok(GenericArray::clone_from_slice(&s.next_tag))
@@ -160,8 +165,13 @@ impl<K: aead::generic_array::ArrayLength<u8>> AeadInPlace for SpyImpl<K> {
         s.decs += 1;
         s.last = record(&self.key, self.key_len, nonce, aad, buffer, tag);
         if s.dec_ok {
-            for b in buffer.iter_mut() {
-                *b ^= 0x5c;
+            let blen = buffer.len();
+            let mut i = 0;
+            while i < MSG_CAP {
+                if i < blen {
+                    buffer[i] ^= 0x5c;
+                }
+                i += 1;
             }
             Ok(())
         } else {
@@ -193,11 +203,15 @@ impl hpke::aead::Aead for SpyAead32B {
 // IdealAead: an ideal AEAD.  encrypt applies an invertible keystream and *logs*
 // (key, nonce, aad, ct, tag); decrypt accepts iff its arguments equal a logged entry
 // (INT-CTXT by construction), then inverts the keystream.
+// All loops have CONSTANT trip counts (CAP / AAD cap) with the length test inside, so that the
+// symbolic executor unrolls them exactly that often instead of up to the unwind limit.
+// `IdealImpl<CAP>`: CAP = largest message the instance handles (4 for most harnesses, 20 where
+// messages straddle the 16-byte block).
 // -------------------------------------------------------------------------------------------
 
 pub const IDEAL_LOG_CAP: usize = 4;
 pub const IDEAL_AAD_CAP: usize = 4;
-pub const IDEAL_MSG_CAP: usize = 20;
+pub const IDEAL_MSG_CAP: usize = 18;
 
 #[derive(Clone, Copy)]
 pub struct IdealEntry {
@@ -237,28 +251,28 @@ pub fn ideal() -> &'static mut IdealLog {
 }
 
 #[derive(Clone)]
-pub struct IdealImpl {
+pub struct IdealImpl<const CAP: usize> {
     pub key: [u8; 16],
 }
 fn keystream(key: &[u8; 16], nonce: &[u8], i: usize) -> u8 {
     key[i % 16] ^ nonce[i % 12] ^ (i as u8).wrapping_add(0x3d)
 }
-impl KeySizeUser for IdealImpl {
+impl<const CAP: usize> KeySizeUser for IdealImpl<CAP> {
     type KeySize = U16;
 }
-impl KeyInit for IdealImpl {
+impl<const CAP: usize> KeyInit for IdealImpl<CAP> {
     fn new(key: &aead::Key<Self>) -> Self {
         let mut k = [0u8; 16];
         k.copy_from_slice(key);
         IdealImpl { key: k }
     }
 }
-impl AeadCore for IdealImpl {
+impl<const CAP: usize> AeadCore for IdealImpl<CAP> {
     type NonceSize = U12;
     type TagSize = U16;
     type CiphertextOverhead = aead::consts::U0;
 }
-impl AeadInPlace for IdealImpl {
+impl<const CAP: usize> AeadInPlace for IdealImpl<CAP> {
     fn encrypt_in_place_detached(
         &self,
         nonce: &aead::Nonce<Self>,
@@ -267,34 +281,50 @@ impl AeadInPlace for IdealImpl {
     ) -> Result<aead::Tag<Self>, aead::Error> {
         let l = ideal();
         l.encs += 1;
+        let blen = buffer.len();
+        let alen = aad.len();
+        if blen > CAP || alen > IDEAL_AAD_CAP || l.n >= IDEAL_LOG_CAP {
+            l.overflow = true;
+            return Err(aead::Error);
+        }
+        let mut n12 = [0u8; 12];
+        n12.copy_from_slice(nonce);
+        let mut e = IDEAL_EMPTY;
+        e.key = self.key;
+        e.nonce = n12;
+        e.aad_len = alen;
+        e.ct_len = blen;
+        // tag: nonce || 4-byte mix of key/aad/ct (its exact value is irrelevant: decrypt checks the log)
+        let mut acc: u32 = 0x9e37_79b9;
         let mut i = 0;
-        while i < buffer.len() {
-            buffer[i] ^= keystream(&self.key, nonce, i);
+        while i < 16 {
+            acc = acc.rotate_left(5) ^ (self.key[i] as u32);
             i += 1;
         }
-        // tag: nonce || 4-byte mix of key/aad/ct (its exact value is irrelevant: decrypt checks the log)
+        let mut i = 0;
+        while i < IDEAL_AAD_CAP {
+            if i < alen {
+                e.aad[i] = aad[i];
+                acc = acc.rotate_left(5) ^ (aad[i] as u32);
+            }
+            i += 1;
+        }
+        let mut i = 0;
+        while i < CAP {
+            if i < blen {
+                let c = buffer[i] ^ keystream(&self.key, &n12, i);
+                buffer[i] = c;
+                e.ct[i] = c;
+                acc = acc.rotate_left(5) ^ (c as u32);
+            }
+            i += 1;
+        }
         let mut tag = [0u8; 16];
-        tag[..12].copy_from_slice(nonce);
-        let mut acc: u32 = 0x9e37_79b9;
-        for b in self.key.iter().chain(aad.iter()).chain(buffer.iter()) {
-            acc = acc.rotate_left(5) ^ (*b as u32);
-        }
+        tag[..12].copy_from_slice(&n12);
         tag[12..].copy_from_slice(&acc.to_be_bytes());
-        if l.n < IDEAL_LOG_CAP && aad.len() <= IDEAL_AAD_CAP && buffer.len() <= IDEAL_MSG_CAP {
-            let e = &mut l.e[l.n];
-            e.key = self.key;
-            e.nonce.copy_from_slice(nonce);
-            e.aad = [0; IDEAL_AAD_CAP];
-            e.aad[..aad.len()].copy_from_slice(aad);
-            e.aad_len = aad.len();
-            e.ct = [0; IDEAL_MSG_CAP];
-            e.ct[..buffer.len()].copy_from_slice(buffer);
-            e.ct_len = buffer.len();
-            e.tag = tag;
-            l.n += 1;
-        } else {
-            l.overflow = true;
-        }
+        e.tag = tag;
+        l.e[l.n] = e;
+        l.n += 1;
         Ok(GenericArray::clone_from_slice(&tag))
     }
     fn decrypt_in_place_detached(
@@ -306,33 +336,39 @@ impl AeadInPlace for IdealImpl {
     ) -> Result<(), aead::Error> {
         let l = ideal();
         l.decs += 1;
+        let blen = buffer.len();
+        let alen = aad.len();
+        if blen > CAP || alen > IDEAL_AAD_CAP {
+            l.overflow = true;
+            return Err(aead::Error);
+        }
+        let mut n12 = [0u8; 12];
+        n12.copy_from_slice(nonce);
+        let mut t16 = [0u8; 16];
+        t16.copy_from_slice(tag);
+        // zero-padded copies so that whole arrays can be compared
+        let mut a = [0u8; IDEAL_AAD_CAP];
+        let mut i = 0;
+        while i < IDEAL_AAD_CAP {
+            if i < alen {
+                a[i] = aad[i];
+            }
+            i += 1;
+        }
+        let mut c = [0u8; IDEAL_MSG_CAP];
+        let mut i = 0;
+        while i < CAP {
+            if i < blen {
+                c[i] = buffer[i];
+            }
+            i += 1;
+        }
         let mut hit = false;
         let mut k = 0;
         while k < IDEAL_LOG_CAP {
             if k < l.n {
                 let e = &l.e[k];
-                let mut eq = e.key == self.key
-                    && e.nonce[..] == nonce[..]
-                    && e.tag[..] == tag[..]
-                    && e.aad_len == aad.len()
-                    && e.ct_len == buffer.len();
-                if eq {
-                    let mut i = 0;
-                    while i < IDEAL_AAD_CAP {
-                        if i < aad.len() && e.aad[i] != aad[i] {
-                            eq = false;
-                        }
-                        i += 1;
-                    }
-                    let mut i = 0;
-                    while i < IDEAL_MSG_CAP {
-                        if i < buffer.len() && e.ct[i] != buffer[i] {
-                            eq = false;
-                        }
-                        i += 1;
-                    }
-                }
-                if eq {
+                if e.key == self.key && e.nonce == n12 && e.tag == t16 && e.aad_len == alen && e.ct_len == blen && e.aad == a && e.ct == c {
                     hit = true;
                 }
             }
@@ -342,23 +378,32 @@ impl AeadInPlace for IdealImpl {
             return Err(aead::Error);
         }
         let mut i = 0;
-        while i < buffer.len() {
-            buffer[i] ^= keystream(&self.key, nonce, i);
+        while i < CAP {
+            if i < blen {
+                buffer[i] ^= keystream(&self.key, &n12, i);
+            }
             i += 1;
         }
         Ok(())
     }
 }
+/// ideal AEAD for messages up to 4 bytes
 pub struct IdealAead;
 impl hpke::aead::Aead for IdealAead {
-    type AeadImpl = IdealImpl;
+    type AeadImpl = IdealImpl<4>;
     const AEAD_ID: u16 = 0x7501;
 }
 /// Same primitive, different identifier
 pub struct IdealAeadB;
 impl hpke::aead::Aead for IdealAeadB {
-    type AeadImpl = IdealImpl;
+    type AeadImpl = IdealImpl<4>;
     const AEAD_ID: u16 = 0x7502;
+}
+/// ideal AEAD for messages up to 18 bytes (block-straddling lengths)
+pub struct IdealAeadBig;
+impl hpke::aead::Aead for IdealAeadBig {
+    type AeadImpl = IdealImpl<18>;
+    const AEAD_ID: u16 = 0x7501;
 }
 
 // -------------------------------------------------------------------------------------------
